@@ -97,9 +97,9 @@ def r3_entry_frame(ck, F):
     fw = fmt.footer_write(F)
     ck.ob(R, "footer-write", tup(fw) == (("table", "index_offsets", ("u64>::to_be_bytes",), False), ("count", "index_offsets", ("u32>::to_be_bytes",))), f"footer written as {fw} (offset table u64 BE in order, then its u32 BE count)", F.body(A("bw_finish")))
     fr = fmt.footer_read(F)
-    okc = fr.get("count") and fr["count"][0] == "u32>::from_be_bytes" and tup(fr["count"][1]) == (("RangeFrom", ("(len-4)",)), ("RangeTo", ("4",)))
-    okt = fr.get("table") and "u64>::from_be_bytes" in fr["table"][0] and fr["table"][1] == 8 and fr["table"][2] is False and tup(fr["table"][3][-2:]) == (("RangeFrom", ("((len-4)-(count*8))",)), ("RangeTo", ("(count*8)",)))
-    okp = fr.get("payload_size") == "((len-(count*8))-4)"
+    okc = fr.get("count") and fr["count"][0] == "u32>::from_be_bytes" and tup(fr["count"][1]) == (("-4+len", "len"),)
+    okt = fr.get("table") and "u64>::from_be_bytes" in fr["table"][0] and fr["table"][1] == 8 and fr["table"][2] is False and tup(fr["table"][3]) == (("-4+-8*count+len", "-4+len"),)
+    okp = fr.get("payload_size") == "-4+-8*count+len"
     ck.ob(R, "footer-read", bool(okc and okt and okp), f"footer read as {fr}", F.body(A("block_read_from")))
 
 
